@@ -62,11 +62,11 @@ def jobs(tier):
     J.append(V.Job("map_compare_keys", H, "h_map_compare", [], unwind=4, shim=False, kind="proof", canary=True,
                    functions=["map_compare_keys"], bound="none: both 32-bit hash values and both key bytes symbolic; loop-free",
                    timeout=200, cbmc_flags=["--no-leak"]))
-    for c in (0, 1, 2, 3, 4, 6, 7, 8, 9, 10, 11, 12, 13, 14):     # case 5 (list creation through the parser: "lst[1]=b") does not finish in 1500 s: not covered
+    for c in (0, 1, 2, 3, 4, 6, 7, 8, 9, 10, 11, 12, 13, 14):     # case 15 (vnaproperty_copy of a list: dfs_copy extends the destination through the parser, "[i]") does not finish in 600 s either: not covered
         J.append(V.Job("descriptor.case%d" % c, H, "h_descriptor", [], defines=["-DH_DESCRIPTOR", "-DDESC_CASE=%d" % c],
                        unwind=12, shim=False, kind="bounded", canary=(c == 0),
                        functions=["vnaproperty_vset", "vnaproperty_vget", "vnaproperty_vget_subtree", "vnaproperty_vdelete",
-                                  "vnaproperty_vcount", "vnaproperty_vtype", "vnaproperty_vset_subtree", "parse", "descend", "parse_and_descend", "scan", "parser_free"],
+                                  "vnaproperty_vcount", "vnaproperty_vtype", "vnaproperty_vset_subtree", "vnaproperty_copy", "dfs_copy", "parse", "descend", "parse_and_descend", "scan", "parser_free"],
                        bound="concrete descriptor history, case %d of harness/c13.c h_descriptor (set foo=bar, then one well-formed or malformed descriptor)" % c,
                        timeout=(200 if tier == "quick" else 1500)))
     J.append(V.Job("export_keys", H, "h_export_keys", [], defines=["-DH_EXPORT"], unwind=12, shim=False, kind="bounded", canary=True,
